@@ -97,5 +97,20 @@ int main(int argc, char **argv)
 	SM3_HMAC_CTX h; sm3_hmac_init(&h, d, 32); uint8_t seq[8] = {0}, hdr[5] = {23, 3, 3, 0, 40};
 	tls_cbc_encrypt(&h, &ek4, seq, hdr, pt, 40, buf, &len); buf[len - 1] ^= 1; hdr[3] = (uint8_t)(len >> 8); hdr[4] = (uint8_t)len;
 	cap_begin(); rc = tls_cbc_decrypt(&h, &dk4, seq, hdr, buf, len, out, &outlen); secret(k16, 16); secret(d, 32); secret(pt, 32); cap_end("tls_cbc_decrypt_tampered", 0, rc);
+	// every value of the padding-length byte of a CBC-protected record (TLCP / TLS 1.2 record layer) and of plain CBC: the byte is steered through the
+	// last byte of the preceding ciphertext block; the failure paths may not report the decrypted record
+	uint8_t pt2[208]; for (int i = 0; i < 208; i++) pt2[i] = (uint8_t)(i * 37 + 11);
+	for (int v = 1; v < 256; v++) {
+		uint8_t hdr2[5] = {23, 3, 3, 0, 200}; char nm[64];
+		tls_cbc_encrypt(&h, &ek4, seq, hdr2, pt2, 200, buf, &len); buf[len - 17] ^= (uint8_t)v; hdr2[3] = (uint8_t)(len >> 8); hdr2[4] = (uint8_t)len;
+		snprintf(nm, sizeof nm, "tls_cbc_decrypt_padlen_xor_%d", v);
+		cap_begin(); rc = tls_cbc_decrypt(&h, &dk4, seq, hdr2, buf, len, out, &outlen); secret(k16, 16); secret(d, 32); secret(pt2, 200); cap_end(nm, 0, rc);
+		if (v % 16 == 1) {
+			sm4_cbc_padding_encrypt(&ek4, iv, pt2, 200, buf, &len); buf[len - 17] ^= (uint8_t)v; snprintf(nm, sizeof nm, "sm4_cbc_padding_decrypt_padlen_xor_%d", v);
+			cap_begin(); rc = sm4_cbc_padding_decrypt(&dk4, iv, buf, len, out, &outlen); secret(k16, 16); secret(pt2, 200); cap_end(nm, 0, rc);
+		}
+	}
+	{ uint8_t hdr2[5] = {23, 3, 3, 0, 200}; tls_cbc_encrypt(&h, &ek4, seq, hdr2, pt2, 200, buf, &len); buf[20] ^= 4; hdr2[3] = (uint8_t)(len >> 8); hdr2[4] = (uint8_t)len;
+	  cap_begin(); rc = tls_cbc_decrypt(&h, &dk4, seq, hdr2, buf, len, out, &outlen); secret(k16, 16); secret(d, 32); secret(pt2, 200); cap_end("tls_cbc_decrypt_bad_mac", 0, rc); }
 	vt_close(); return 0;
 }
